@@ -730,7 +730,8 @@ static void Disassemble_68(
 }
 
 static void SwitchTo_68(void) {
-    Disassemble = Disassemble_68;
+    Disassemble     = Disassemble_68;
+    DasmIntelSyntax = False;
 }
 
 void deco68_init(void) {
